@@ -37,6 +37,7 @@ def _contains_zero_divisor_or_undefined_constant(model, envs):
 
     Returns True also when the oracle cannot tell (a divisor on which the evaluator abstains everywhere).
     """
+    bound_names = {x[2] for x in ev._walk(model) if x[0] == 'q'}
     for n in ev._walk(model):
         closed = not any(x[0] in ('this', 'var') for x in ev._walk(n))
         if n[0] == 'lit' and isinstance(n[2], float) and (n[2] != n[2] or n[2] in (float('inf'), float('-inf'))):
@@ -51,6 +52,8 @@ def _contains_zero_divisor_or_undefined_constant(model, envs):
             for e in envs or [ev.Env()]:
                 st, v = ev.try_ev(n[3], e)
                 if st == 'undef' and 'unbound variable' in v:
+                    if v.split('@')[-1] not in bound_names:
+                        return True  # a free reference without a valuation (no schema given): abstain
                     nonzero = True  # under a quantifier: only closed divisors are judged
                     break
                 statuses.add(st)
